@@ -233,6 +233,13 @@ func NormErr(s string) string {
 // NormMsg replaces numbers in a panic/error message by N so that signatures are stable.
 func NormMsg(s string) string {
 	s = numRe.ReplaceAllString(s, "N")
+	// error texts may quote raw input bytes: keep signatures printable
+	s = strings.Map(func(r rune) rune {
+		if r < 0x20 || r == 0x7f || r == 0xfffd {
+			return '?'
+		}
+		return r
+	}, s)
 	if len(s) > 120 {
 		s = s[:120]
 	}
